@@ -126,6 +126,7 @@ type FuncCtx struct {
 	groundTest    string
 	goMode        bool
 	nregion       int
+	sideSeen      map[string]bool
 	havocSources  []Term
 	concats       [][3]string // string concatenations (result, left, right) for the JSON-safety facts
 }
